@@ -31,7 +31,7 @@ def handle (j : J) : J :=
     let r : Request := {
       docIsText := j.boolD "docText", syntaxError := j.strD "parse" == "syntax", valid := j.boolD "valid",
       opselOk := j.strD "opsel" == "ok", varsOk := j.strD "vars" == "ok",
-      subscriptionOp := j.boolD "subscriptionOp", serial := j.boolD "serial",
+      subscriptionOp := j.boolD "subscriptionOp", rootCollectFails := j.boolD "rootCollectFails", serial := j.boolD "serial",
       blockingExecutor := j.strD "executor" == "blocking",
       fields := (j.arrD "fields").map nodeOfJson,
       sched := (j.arrD "sched").map fun x => (x.asNat?).getD 0 }
